@@ -63,12 +63,17 @@ claim('C06',
       'the shapes expected from the declarations + a rustc-checked client using every declared item and the parse signature from outside the module.',
       COMMON_NOTE, 'Coq proof (emitter lemmas) + expected-item oracle + rustc client', 'DESIGN.md §5 C06')
 claim('C07',
-      'Coq theorems: the tokenizer model never panics or runs out of fuel on any string (Lex/NoPanic.v); the front-end parse loop over the tables '
-      'regenerated from parser.rs never panics and terminates within a proved bound for any token sequence; the table stage fails only with a '
-      'conflict. Totality of the whole pipeline is not proved: every unwrap/index/slice is an explicit Panic in the model and '
-      'the crate is run on malformed/unusual/large inputs under catch_unwind and in watchdog-guarded child processes, results equal to the model.',
+      'Coq theorem, for EVERY string and every iteration order of the hash collections: the model of generate never returns Panic '
+      '(PipelineProofs.generate_never_panics) — every unwrap/expect/index/slice/"Impossible" arm of the crate is an explicit Panic in the model '
+      'and each is shown unreachable from the invariant the code relies on (token spans on character boundaries; reduce functions + cst_to_ast '
+      'total on derivation trees; FIRST map keys; item rule indices; queue indices; total renumbering; a transition for every shift; '
+      'unreachable goto conflict; declared lookaheads; cells in range; declared terminals in the emitter; no unbound hole in the template '
+      'regenerated on this run). Also: the tokenizer has no unbounded loop; the front-end parse loop terminates within a proved bound. '
+      'NOT proved: that the model\'s fuel suffices in the automaton/closure/FIRST loops (the no-hang half there is modelled: OutOfFuel is a '
+      'distinct result that shows up as a disagreement), host stack depth. The crate is run on malformed/unusual/large inputs under '
+      'catch_unwind and in watchdog-guarded child processes, results equal to the model.',
       COMMON_NOTE + 'Host stack depth and wall-clock time are sampled only.',
-      'Coq proof (validated tables => no panic) + differential fuzzing with panic/abort/hang detection', 'DESIGN.md §5 C07')
+      'Coq proof (stage-by-stage invariants => no Panic, all inputs) + differential fuzzing with panic/abort/hang detection', 'DESIGN.md §5 C07')
 claim('C08',
       'Coq theorems: single-step lexical facts of the tokenizer model. The full statement tokenize = maximal-munch specification is decided '
       'per input: crate tokens (hook) = independent lexical specification = model on generated, soup and mutated texts.',
